@@ -302,9 +302,17 @@ func c03Gen(seed int64, tier string, batch, i int) c03Input {
 	case c == 14 && r.Intn(3) == 0:
 		// the less travelled entry points: Parse([]byte), ParseFS, ParseExecutable([]byte), ParseExecutableReader and ParseValue
 		// with readers that fail, ParseFS with hostile patterns and file systems whose Open / Read / Close fail
-		in.Entry = []string{"parse-bytes", "parse-fs", "exe-bytes", "exe-reader-fault", "value-reader-fault"}[r.Intn(5)]
+		in.Entry = []string{"parse-bytes", "parse-fs", "exe-bytes", "exe-reader-fault", "value-reader-fault", "addtypes-names"}[r.Intn(6)]
 		in.Cat = "alt-entry-points"
 		switch in.Entry {
+		case "addtypes-names":
+			// a schema built in Go: names never pass the tokenizer, any string can arrive
+			nb := make([]byte, r.Intn(7))
+			for k := range nb {
+				pool := []byte("ab_Z9-$ .@\x00\x7f\x80\xc3\xa9\xe5\x90\x8d\xff\"\n")
+				nb[k] = pool[r.Intn(len(pool))]
+			}
+			in.Text = string(nb)
 		case "parse-bytes", "parse-fs":
 			in.Text = genSDL()
 			if r.Intn(2) == 0 {
@@ -833,6 +841,18 @@ func c03Exec(in c03Input) {
 			_ = t.String()
 			_ = ggql.Locate(t)
 		}
+	case "addtypes-names":
+		root := ggql.NewRoot(&zoo.Root{})
+		if r.Intn(3) == 0 {
+			_ = root.ParseString("type Query { zzFirst: Int }")
+		}
+		_ = root.AddTypes(c13BuildTypes(c13NamePositions[r.Intn(len(c13NamePositions))], in.Text)...)
+		_ = root.SDL(false, true)
+		for _, t := range root.Types() {
+			_ = t.String()
+		}
+		_ = root.GetType(in.Text)
+		_ = root.ResolveString("{ __schema { types { name fields { name args { name } } enumValues { name } inputFields { name } } directives { name args { name } } } }", "", nil)
 	case "parse-bytes":
 		root := ggql.NewRoot(&zoo.Root{})
 		c03SetBudget(len(in.Text))
@@ -981,6 +1001,7 @@ func runC03(c *run.Ctx) {
 		done    bool
 		out     string
 		timeout bool
+		lost    string
 	}
 	results := make(chan result, batches)
 	sem := make(chan struct{}, 16)
@@ -1066,6 +1087,9 @@ func runC03(c *run.Ctx) {
 					res.stacks[last] = o
 					from = last + 1
 				} else {
+					// the child ended without finishing its batch and not inside an input: nothing of ggql's was running, the
+					// harness itself failed - the inputs it did not get to were NOT executed and that must not pass silently
+					res.lost = fmt.Sprintf("batch %d: the child ended after input %d without finishing and outside any input: %s", b, last, clip(o, 600))
 					break
 				}
 			}
@@ -1076,6 +1100,9 @@ func runC03(c *run.Ctx) {
 	total := 0
 	for k := 0; k < batches; k++ {
 		res := <-results
+		if res.lost != "" {
+			c.Inconclusive(res.lost)
+		}
 		for i := 0; i < per; i++ {
 			st, has := res.entries[i]
 			if !has {
